@@ -274,11 +274,29 @@ def sweep_one(rec, rng, xr, da, cls, nf, nd, names):
             allowed = True  # sw documents masking below hs 0.001; a split band can be empty
         if op in ("dpspr",):
             allowed = True  # spread of a (near) unidirectional row is at the rounding floor
+        if inf and op == "alpha" and alpha_out_of_range(E, f):
+            rec.skip("py_alpha", "documented tail fit exceeds the float32 range on this grid")
+            continue
         if (nan and not allowed) or inf and op not in ("hmax",):
             rec.bad("py_" + op, key, {"nan": nan, "inf": inf, "freq": f, "dir": th, "E": E, "class": cls,
                                       "result": arrs[0]}, "nonfinite:%s" % op)
         else:
             rec.ok("py_" + op, key)
+
+
+def alpha_out_of_range(E, f):
+    """True when the documented Phillips fit itself is beyond float32 for some spectrum."""
+    f32 = np.asarray(f, dtype="float32").astype("float64")
+    for e in E.reshape((-1,) + E.shape[-2:]):
+        e1 = e.sum(-1)
+        ip, acc, amb = P.the_peak(e1, 0.0)
+        if ip is None:
+            continue
+        for fp in (float(f32[ip]), float(P.parabola_vertex(f32, e1, ip))):
+            a, _ = P.alpha_ref(e1, f32, fp)
+            if not np.isfinite(a) or abs(a) > 1e30:
+                return True
+    return False
 
 
 def invalid_args(rec, rng, xr):
